@@ -853,7 +853,15 @@ func runCase(seed int64, idx int, addr string, sc scenario, ow *oidcWorld) (stri
 	}
 	il := netpkg.NewInternalListener()
 	cx.il = il
-	s, err := hx.StartServer(addr, func(c *v1.ServerConfig) {
+	if sc.plugin {
+		ps, perr := newPlugStub(addr)
+		if perr != nil {
+			return "", nil, nil, [2]int{}, fmt.Errorf("plugin stub could not start: %v", perr)
+		}
+		cx.plug = ps
+		defer cx.plug.close()
+	}
+	mutate := func(c *v1.ServerConfig) {
 		for _, x := range sc.scopes {
 			c.Auth.AdditionalScopes = append(c.Auth.AdditionalScopes, v1.AuthScope(x))
 		}
@@ -865,19 +873,22 @@ func runCase(seed int64, idx int, addr string, sc scenario, ow *oidcWorld) (stri
 			cx.token = ""
 		}
 		configureTransport(c, addr, sc.transport)
-		if sc.plugin {
-			ps, perr := newPlugStub(addr)
-			if perr == nil {
-				cx.plug = ps
-				c.HTTPPlugins = []v1.HTTPPluginOptions{{Name: "c04-stub", Addr: ps.addr, Path: "/handler", Ops: []string{"NewWorkConn"}}}
-			}
+		if cx.plug != nil {
+			c.HTTPPlugins = []v1.HTTPPluginOptions{{Name: "c04-stub", Addr: cx.plug.addr, Path: "/handler", Ops: []string{"NewWorkConn"}}}
 		}
-	})
-	if cx.plug != nil {
-		defer cx.plug.close()
 	}
-	if sc.plugin && cx.plug == nil {
-		return "", nil, nil, [2]int{}, fmt.Errorf("plugin stub could not start")
+	// the bind port is probed and then bound (hx.FreePort): another check running at the same time may take it in between
+	var s *hx.Server
+	var err error
+	for attempt := 0; attempt < 4; attempt++ {
+		s, err = hx.StartServer(addr, mutate)
+		if err == nil {
+			break
+		}
+		if s != nil {
+			s.Close()
+		}
+		time.Sleep(time.Duration(20*(attempt+1)) * time.Millisecond)
 	}
 	if err != nil {
 		return "", nil, nil, [2]int{}, err
